@@ -128,6 +128,17 @@ def writeSegs (f : File) (ws : List (Seg × List UInt8)) : File :=
 def fillAll (nprocs recsize nrecs : Nat) (elem : FVar → List UInt8) (vars : List FVar) (f : File) : File :=
   writeSegs f ((List.range nprocs).flatMap fun r => fillPlanD nprocs r recsize nrecs elem vars)
 
+
+/-! ### the whole data effect of ncmpio__enddef after a redefinition: move the old data, then fill the new variables -/
+
+/-- `ncmpio__enddef` with `ncp->old != NULL`, data part: the moving block (`Redef.enddefMove`), then — after the
+    header write, which stays below `begin_var` — `ncmpio_fill_vars` = `fillerup_aggregate(ncp, ncp->old)` on the
+    variables added by the redefinition (`newVars`), for the `numrecs` records that exist -/
+def enddefAll (m : PnVerif.Redef.ReadMode) (nprocs unit : Nat) (f : File) (old new : PnVerif.Redef.Lay)
+    (nvars numrecs : Nat) (vars : List PnVerif.Redef.MVar) (elem : FVar → List UInt8) (newVars : List FVar) : File :=
+  fillAll nprocs new.recsize numrecs elem newVars
+    (PnVerif.Redef.enddefMove m nprocs unit f old new nvars numrecs vars)
+
 /-- big-endian unsigned value of a byte string -/
 def beVal (bs : List UInt8) : Nat := bs.foldl (fun a b => a * 256 + b.toNat) 0
 
